@@ -2,7 +2,7 @@
 import re
 
 from analysis import (Prov, Guards, fmt, fmt_short, walk, roots, short, comparison, find_calls, callee_matches,
-                      must_pass, path_to, describe_path, peel_await, edge_label)
+                      must_pass, path_to, describe_path, peel_await, edge_label, field_writes)
 from facts import AnchorError, strip_closure
 from harness import Rule
 import c13
@@ -212,6 +212,23 @@ def r3_r4(ctx):
     r4.check(okk, "set_handshake_sent precedes the re-insertion of the request", "challenge|flag-not-set",
              "handle_challenge re-inserts the request after sending a handshake without marking it (a second WHOAREYOU would be answered again)",
              loc=b.loc(enc[0][1].line))
+    # the flag is monotone: written false only where a RequestCall is constructed, and true only by set_handshake_sent
+    fw = field_writes(facts, r"handler::request_call::RequestCall$", "handshake_sent")
+    n_true = n_false = 0
+    for wb, bi, line, kind, e in fw:
+        v = fmt(e)
+        fn = strip_closure(wb.path).split("::")[-1]
+        if kind == "construct" and v in ("const(false)", "const(0)"):
+            n_false += 1
+            r4.ok("RequestCall constructed in %s with handshake_sent = false" % fn)
+        elif kind == "assign" and v in ("const(true)", "const(1)"):
+            n_true += 1
+            r4.ok("handshake_sent := true in %s" % fn)
+        else:
+            r4.fail("flag|reset|%s" % fn, "RequestCall::%s writes handshake_sent := %s: the flag can be cleared (or set from data) after a handshake was sent, so a second WHOAREYOU "
+                    "for the same request would be answered with another handshake instead of failing it" % (fn, fmt_short(e)), loc=wb.loc(line))
+    if not n_true or not n_false:
+        r4.fail("flag|writers", "writers of RequestCall.handshake_sent not found (true: %d, false: %d)" % (n_true, n_false))
     return r3, r4
 
 
